@@ -13,7 +13,9 @@
    Next to this transcription the module keeps `logical`, the plain contents the user has
    written (updated by the mutators, replaced by Reset), as the independent reference. *)
 EXTENDS Integers, Sequences, FiniteSets, TLC
-CONSTANTS Accts, Keys, MaxBal, Vals, MaxSnaps, MaxOps, HistOn
+CONSTANTS Accts, Keys, MaxBal, Vals, MaxSnaps, MaxOps, HistOn,
+          CodeIds,   \* contract codes that can be deployed (empty set: no contract life cycle)
+          Blocks     \* BOOLEAN: SetBlock is part of the alphabet
 VARIABLES trie,      \* [Accts -> Data \cup {Absent}]   accounts stored in the account trie
           cache,     \* [Accts -> [in, d, sync, last]]  mutableAccounts / lastAccounts
           logical,   \* [Accts -> Data]                 what the user wrote
@@ -23,8 +25,11 @@ vars == <<trie, cache, logical, snaps, nops, hist>>
 
 NoVal == 0
 Absent == [absent |-> TRUE]
-EmptyD == [bal |-> 0, st |-> [k \in Keys |-> NoVal], ct |-> FALSE]
-IsEmpty(d) == d.bal = 0 /\ (\A k \in Keys : d.st[k] = NoVal) /\ ~d.ct
+\* bal balance, st storage, ct contract account, bl blocked flag (account state bits), nx code id of the pending
+\* next contract, cur code id of the accepted current contract (0 = none)
+EmptyD == [bal |-> 0, st |-> [k \in Keys |-> NoVal], ct |-> FALSE, bl |-> FALSE, nx |-> 0, cur |-> 0]
+\* accountData.IsEmpty: balance 0, no storage, not a contract, no state bits
+IsEmpty(d) == d.bal = 0 /\ (\A k \in Keys : d.st[k] = NoVal) /\ ~d.ct /\ ~d.bl
 NotCached == [in |-> FALSE, d |-> EmptyD, sync |-> FALSE, last |-> FALSE]
 
 \* what a reader of the world state sees for account a (GetAccountSnapshot)
@@ -59,7 +64,7 @@ FlushSet(t, c, S) == IF S = {} THEN [t |-> t, c |-> c]
 FlushCache == FlushSet(trie, cache, Accts)
 
 -----------------------------------------------------------------------------
-DataJ(d) == [bal |-> d.bal, st |-> d.st, ct |-> d.ct, empty |-> IsEmpty(d)]
+DataJ(d) == [bal |-> d.bal, st |-> d.st, ct |-> d.ct, bl |-> d.bl, nx |-> d.nx, cur |-> d.cur, empty |-> IsEmpty(d)]
 TrieJ(t) == [a \in Accts |-> IF t[a] = Absent THEN [absent |-> TRUE] ELSE DataJ(t[a]) @@ [absent |-> FALSE]]
 Log(r) == /\ nops' = IF MaxOps = 0 THEN 0 ELSE nops + 1
           /\ hist' = IF HistOn
@@ -81,6 +86,18 @@ DeleteValue(a, k) == /\ Mutate(a, [View(a) EXCEPT !.st[k] = NoVal], View(a).st[k
                      /\ Log(Rec("deletevalue", a, k, NoVal, 0, View(a).st[k]))
 InitContract(a) == /\ Mutate(a, [View(a) EXCEPT !.ct = TRUE], ~View(a).ct)
                    /\ Log(Rec("initcontract", a, "", 0, 0, IF View(a).ct THEN 0 ELSE 1))
+\* SetBlock(b): any account; a blocked externally owned account is not empty any more
+SetBlock(a, b) == /\ Blocks
+                  /\ Mutate(a, [View(a) EXCEPT !.bl = b], View(a).bl # b)
+                  /\ Log(Rec("setblock", a, "", IF b THEN 1 ELSE 0, 0, 0))
+\* DeployContract(code c): only on contract accounts (otherwise nothing happens); replaces a pending next contract
+Deploy(a, c) == /\ IF View(a).ct THEN Mutate(a, [View(a) EXCEPT !.nx = c], TRUE)
+                   ELSE Mutate(a, View(a), FALSE)
+                /\ Log(Rec("deploy", a, "", c, 0, IF View(a).ct THEN View(a).nx ELSE 0))   \* returns the replaced deployment
+\* AcceptContract: the pending next contract becomes the current one
+Accept(a) == /\ IF View(a).ct /\ View(a).nx # 0 THEN Mutate(a, [View(a) EXCEPT !.cur = View(a).nx, !.nx = 0], TRUE)
+                ELSE Mutate(a, View(a), FALSE)
+             /\ Log(Rec("accept", a, "", View(a).nx, 0, IF View(a).ct /\ View(a).nx # 0 THEN 1 ELSE 0))
 \* GetAccountState without a change: only loads the account into the cache
 Touch(a) == /\ cache' = Loaded(cache, a) /\ UNCHANGED <<trie, logical, snaps>>
             /\ Log(Rec("touch", a, "", 0, 0, 0))
@@ -116,6 +133,9 @@ Next == \/ \E a \in Accts, b \in 0..MaxBal : Can /\ SetBalance(a, b)
         \/ \E a \in Accts, k \in Keys : Can /\ DeleteValue(a, k)
         \/ \E a \in Accts : Can /\ InitContract(a)
         \/ \E a \in Accts : Can /\ Touch(a)
+        \/ \E a \in Accts, b \in BOOLEAN : Can /\ SetBlock(a, b)
+        \/ \E a \in Accts, c \in CodeIds : Can /\ Deploy(a, c)
+        \/ \E a \in Accts : Can /\ CodeIds # {} /\ Accept(a)
         \/ \E s \in 1..MaxSnaps : Can /\ GetSnapshot(s)
         \/ \E s \in 1..MaxSnaps : Can /\ Reset(s)
         \/ Can /\ ClearCache
